@@ -38,6 +38,8 @@ class Executor:
         self.keep = []
         self.registries = {}
         self._seen = {}
+        self.writer = {}
+        self.last_run = {}
 
     def cfgdir(self, i):
         return self.cfg_root / f'v{i}'
@@ -130,6 +132,8 @@ class Executor:
                             names = names[:1]
                         s = self.slots[op.get('slot', 0) % len(self.slots)]
                         target = s[1] if (s[0] == 'multi' and op.get('through_multi')) else ch
+                        if target is not ch and how == 'object':
+                            arg = names  # a task object belongs to one member chain; through the MultiChain use names
                         target.force(arg, recompute=op.get('recompute', False), delete_data=op.get('delete', False))
                         res = {'tasks': names}
                     elif kind == 'inspect':
@@ -162,6 +166,12 @@ class Executor:
             return {n: (t.run_info or {}).get('task', {}).get('name') for n, t in ch.tasks.items()}
         if what == 'log':
             return {n: (None if t.log is None else len(t.log)) for n, t in ch.tasks.items()}
+        if what == 'records':
+            out = {}
+            for n, t in ch.tasks.items():
+                out[n] = {'run_info': t.run_info, 'log': t.log, 'ns': t.get_config().namespace,
+                          'cls': type(t).__name__, 'module': type(t).__module__}
+            return out
         if what == 'readable':
             ch.create_readable_filenames(name='nice')
             return {}
@@ -181,6 +191,9 @@ class Executor:
 
 
 # ---- reference model of the store and the lazy evaluator -------------------------------------------------------
+
+HANDLE_KINDS = ('dir', 'lazy')
+
 
 class Obj:
     """One task object of a chain (names sharing it are the same computation)."""
@@ -207,12 +220,23 @@ class MChain:
                 registry[k] = Obj(t)
             self.by_name[n] = registry[k]
         self.pm = pm
+        # a shared object may have been created by another chain (MultiChain / shared registry) under another name:
+        # inside this chain its inputs are those of one of ITS names here
+        self.local_mt = {}
+        for n, o in self.by_name.items():
+            self.local_mt.setdefault(id(o), mtasks[n])
+
+    def mt_of(self, o):
+        return self.local_mt.get(id(o), o.mt)
 
     def obj(self, n):
         return self.by_name[n]
 
+    def owner(self, o):
+        return self
+
     def inputs(self, o):
-        return [self.by_name[i['target']] for i in o.mt.inputs if i['present']]
+        return [self.by_name[i['target']] for i in self.mt_of(o).inputs if i['present']]
 
     def descendants(self, o):
         out, todo = set(), [o]
@@ -241,6 +265,8 @@ class StoreModel:
         self._mt_cache = {}
         self.registries = {}
         self._seen = {}
+        self.writer = {}
+        self.last_run = {}
 
     def mtasks(self, vi, pm=True):
         key = (vi, pm)
@@ -282,13 +308,19 @@ class StoreModel:
     def current(self, mch, o):
         """Digest the object holds or would load; None if it has to be computed."""
         if o.mem is not None:
+            if o.mt.kind in HANDLE_KINDS:
+                # the in-memory value is a handle to the stored result (a directory path, a lazy file reader)
+                if self.loc(o) not in self.store:
+                    raise model.OutOfDomain('a stored result was deleted while another chain held a handle to it')
+                return self.store[self.loc(o)]
             return o.mem
         if o.persisting and self.loc(o) in self.store and not o.forced:
             return self.store[self.loc(o)]
         return None
 
     def expected_digest(self, mch, o, seq):
-        t = o.mt
+        mch = mch.owner(o)
+        t = mch.mt_of(o)
         ignored = {p['name'] for p in t.spec['params'] if p.get('ignore')}
         pv = {k: canon_param(v) for k, v in t.params.items() if k not in ignored}
         present = [i for i in t.inputs if i['present']]
@@ -314,13 +346,9 @@ class StoreModel:
         failed = None
         for entry in log:
             fullname, nfp, _oid, seq, slug = entry[:5]
-            if fullname not in mch.by_name:
-                # a shared object logs the full name of its first mount: match by (slug, key)
-                cands = [o for o in pending if o.mt.slug == slug and o.mt.key == nfp]
-            else:
-                cands = [o for o in pending if o is mch.by_name[fullname]]
-                if not cands:
-                    cands = [o for o in pending if o.mt.slug == slug and o.mt.key == nfp]
+            # (a shared object logs the full name of its first mount, and member chains of a MultiChain may hold
+            #  different objects under one name: identify the object by task class and storage key)
+            cands = [o for o in pending if o.mt.slug == slug and o.mt.key == nfp]
             if not cands:
                 raise Violation('unexpected-run', dict(info, ran=fullname, key=nfp,
                                                        predicted=[o.mt.fullname for o in predicted]))
@@ -330,6 +358,11 @@ class StoreModel:
                 self.armed[slug] -= 1
                 failed = o
                 o.mem = None
+                # nothing is asserted about records after a failed run - including the dependants whose own attempt had
+                # already started (and opened their log) when the input failed
+                for x in [o] + pending:
+                    if x.persisting:
+                        self.last_run.pop(self.loc(x), None)
                 break
             want = self.expected_digest(mch, o, seq)
             got = entry[5] if len(entry) > 5 else None
@@ -340,6 +373,8 @@ class StoreModel:
             o.mem = want
             if o.persisting:
                 self.store[self.loc(o)] = want
+                self.writer[self.loc(o)] = id(mch)
+                self.last_run[self.loc(o)] = {'seq': seq, 'obj': o, 'chain': mch.owner(o), 'fullname': fullname}
                 self.runs_per_location[self.loc(o)] = self.runs_per_location.get(self.loc(o), 0) + 1
             else:
                 self.runs_per_memobj[id(o)] = self.runs_per_memobj.get(id(o), 0) + 1
@@ -443,19 +478,43 @@ class StoreModel:
         if kind == 'value':
             n = self.task_of(mch, op['task'])
             o = mch.by_name[n]
+            # C01's oracle proper: whatever is returned equals the reference evaluation of the requesting chain's own
+            # configuration - checked first and independently of how the value was obtained
+            for x in set(mch.by_name.values()):
+                if x.mem is not None and x.mt.kind in HANDLE_KINDS and self.loc(x) not in self.store:
+                    raise model.OutOfDomain('a stored result was deleted while another chain held a handle to it')
+            if not self.salt and err is None and obs.get('result') is not None and o.mt.kind != 'gen_empty':
+                if obs['result']['digest'] != o.mt.value:
+                    raise Violation('value', dict(info, requested=n, got=obs['result']['digest'], want=o.mt.value,
+                                                  how='reference evaluation of the requesting configuration'))
             predicted = []
             self.need(mch, o, predicted)
-            will_fail = [x for x in predicted if self.armed.get(x.mt.slug, 0) > 0]
             served_without_run = not predicted
+            # values that will be LOADED for this request, written by another chain object / process, while the task's
+            # directory holds >= 2 distinct results (a wrong load is possible)
+            cross = False
+            todo, seen_o = [o], set()
+            while todo:
+                x = todo.pop()
+                if id(x) in seen_o:
+                    continue
+                seen_o.add(id(x))
+                if x.mem is None and x.persisting and self.loc(x) in self.store and not x.forced:
+                    if self.writer.get(self.loc(x)) != id(mch):
+                        d = self.loc(x).rsplit('/', 1)[0] + '/'
+                        if len({l for l in self.store if l.startswith(d)}) >= 2:
+                            cross = True
+                elif x in predicted:
+                    todo += mch.inputs(x)
             failed = self.consume_runs(mch, predicted, log, dict(info, requested=n))
             if failed is not None:
                 if err != 'InjectedFault':
                     raise Violation('run-failure-not-propagated', dict(info, requested=n, error=err,
                                                                        result=obs.get('result')))
                 return {'kind': 'value', 'failed': failed.mt.fullname, 'runs': len(log)}
+            want = self.current(mch, o)  # (raises OutOfDomain for a handle whose result another chain deleted)
             if err is not None:
                 raise Violation('value-raised', dict(info, requested=n, error=err))
-            want = self.current(mch, o)
             if o.mem is None:
                 o.mem = want
             got = obs['result']['digest']
@@ -465,7 +524,7 @@ class StoreModel:
                 raise Violation('value', dict(info, requested=n, got=got, want=want,
                                               how='computed' if predicted else 'memory-or-storage'))
             return {'kind': 'value', 'runs': len(log), 'served_without_run': served_without_run,
-                    'loaded_skipping_upstream': False, 'task': n}
+                    'cross_load_with_alternatives': cross, 'task': n}
         if kind == 'force_task':
             n = self.task_of(mch, op['task'])
             o = mch.by_name[n]
@@ -484,6 +543,7 @@ class StoreModel:
             sl_ = sl[op.get('slot', 0) % len(sl)]
             targets = sl_[1] if (sl_[0] == 'multi' and op.get('through_multi')) else [mch]
             all_forced = []
+            nt_stats = []
             for ch in targets:
                 if any(n not in ch.by_name for n in names):
                     # MultiChain.force with a task missing from a member chain: outside the generated domain
@@ -493,6 +553,15 @@ class StoreModel:
                     o = ch.by_name[n]
                     closure.add(o)
                     closure |= ch.descendants(o)
+                all_objs = set(ch.by_name.values())
+                stats = {
+                    'proper': 0 < len(closure) < len(all_objs),
+                    'forced_stored': any(o.persisting and self.loc(o) in self.store for o in closure),
+                    'unforced_upstream_stored': any(
+                        u not in closure and u.persisting and self.loc(u) in self.store
+                        for o in closure for u in ch.inputs(o)),
+                }
+                nt_stats.append(stats)
                 for o in closure:
                     if op.get('delete') and o.persisting:
                         self.store.pop(self.loc(o), None)
@@ -522,7 +591,9 @@ class StoreModel:
             if err is not None:
                 raise Violation('force-raised', dict(info, error=err))
             return {'kind': 'force', 'forced': names, 'closure': sum(len(c) for _, c, _ in all_forced),
-                    'recompute': bool(op.get('recompute')), 'delete': bool(op.get('delete'))}
+                    'recompute': bool(op.get('recompute')), 'delete': bool(op.get('delete')),
+                    'nontrivial': any(s['proper'] and s['forced_stored'] and s['unforced_upstream_stored']
+                                      for s in nt_stats), 'members': len(targets)}
         raise ValueError(kind)
 
     def check_flags(self, proc, flags, info):
@@ -549,11 +620,14 @@ class _Union:
             for n, o in ch.by_name.items():
                 self.by_name.setdefault(n, o)
 
-    def inputs(self, o):
+    def owner(self, o):
         for ch in self.chains:
-            if o in ch.by_name.values():
-                return ch.inputs(o)
-        return []
+            if any(o is x for x in ch.by_name.values()):
+                return ch
+        return self.chains[0]
+
+    def inputs(self, o):
+        return self.owner(o).inputs(o)
 
 
 # ---- fresh-interpreter sessions ----------------------------------------------------------------------------------
@@ -565,6 +639,10 @@ def session_main():
     hist = req['hist']
     RT.reset()
     RT.salt_seq = bool(hist.get('salt'))
+    if hist.get('records'):
+        from tcv import records
+        RT.hooks.append(records.hook)
+        RT.gen_messages = True
     RT.seq = req.get('seq0', 0)
     for slug, n in req.get('armed', {}).items():
         RT.fail[slug] = n
@@ -576,7 +654,7 @@ def session_main():
         if req.get('flags'):
             obs['flags'] = ex.flags()
         out.append(obs)
-    sys.__stdout__.write('\n' + json.dumps({'obs': out, 'seq': RT.seq}) + '\n')
+    sys.__stdout__.write('\n' + json.dumps({'obs': out, 'seq': RT.seq, 'armed': dict(RT.fail)}) + '\n')
     sys.__stdout__.flush()
     os._exit(0)
 
